@@ -2,13 +2,16 @@
  * times; yield-based polling loops terminate. */
 #include "common.h"
 #include "fiber_manager.h"
+#include "fiber_mutex.h"
 
 const char* const H_NAME = "c10_yield";
 const char* const H_PROPERTY = "C10";
 
 #define MAXFB 1024
 #define CROWD_STK 32768
-enum { ROLE_SETTER = 0, ROLE_POLLER, ROLE_YIELDER };
+enum { ROLE_SETTER = 0, ROLE_POLLER, ROLE_YIELDER, ROLE_LOCKER, ROLE_HOLDER };
+static fiber_mutex_t mx;
+static int with_mutex;
 static int nfib, nthreads;
 static volatile int flag[MAXFB];
 static long ready_since[MAXFB]; /* -1: not waiting in a run queue */
@@ -63,6 +66,34 @@ static void* fib(void* p) {
         g_running(i);
       }
       break;
+    case ROLE_LOCKER:
+      /* blocks on the mutex, is made ready by the holder's unlock (possibly on another kernel thread) and must
+       * then get its turn although everybody else only yields; it is the setter of its flag */
+      for (int k = 0; k < spec[i].k / 2; k++) {
+        g_ready(i);
+        RS0(fiber_yield);
+        g_running(i);
+      }
+      RS1(fiber_mutex_lock, &mx);
+      g_running(i);
+      fiber_mutex_unlock(&mx);
+      flag[spec[i].flag_idx] = 1;
+      break;
+    case ROLE_HOLDER:
+      RS1(fiber_mutex_lock, &mx);
+      g_running(i);
+      for (int k = 0; k < spec[i].k; k++) {
+        g_ready(i);
+        RS0(fiber_yield);
+        g_running(i);
+      }
+      fiber_mutex_unlock(&mx);
+      while (!flag[spec[i].flag_idx]) {
+        g_ready(i);
+        RS0(fiber_yield);
+        g_running(i);
+      }
+      break;
     default:
       for (int k = 0; k < spec[i].k; k++) {
         g_ready(i);
@@ -80,6 +111,7 @@ void h_run(void) {
   /* "for any number of ready fibers": one program in sixteen is a crowd of up to 800 fibers (beyond the sizes
    * of the deque's first arrays and of any batch), a handful of them with drawn roles, the rest yielding */
   crowd = wl_pct(6);
+  with_mutex = wl_pct(35); /* some fibers become ready through a mutex hand-off instead of a yield */
   g_calls = 0;
   nfib = crowd ? wl_int(7, 100) * wl_int(1, 8) : wl_int(2, 6);
   int nflags = wl_int(1, 2);
@@ -88,7 +120,7 @@ void h_run(void) {
   const int crowd_polls = crowd && wl_pct(50); /* the crowd polls flag 0 instead of yielding a fixed number of times */
   for (int i = 0; i < nfib; i++) {
     if (i < 6) {
-      spec[i].role = wl_pick(3);
+      spec[i].role = wl_pick(with_mutex ? 5 : 3);
       spec[i].k = wl_int(0, 6);
       spec[i].flag_idx = wl_pick(nflags);
     } else {
@@ -97,11 +129,11 @@ void h_run(void) {
       spec[i].flag_idx = 0;
     }
     ready_since[i] = -1;
-    if (spec[i].role == ROLE_SETTER) have_setter[spec[i].flag_idx] = 1;
+    if (spec[i].role == ROLE_SETTER || spec[i].role == ROLE_LOCKER) have_setter[spec[i].flag_idx] = 1;
   }
   /* every polled flag needs a setter: deadlock-free by construction */
   for (int i = 0; i < nfib; i++)
-    if (spec[i].role == ROLE_POLLER && !have_setter[spec[i].flag_idx]) {
+    if ((spec[i].role == ROLE_POLLER || spec[i].role == ROLE_HOLDER) && !have_setter[spec[i].flag_idx]) {
       spec[i].role = ROLE_SETTER;
       have_setter[spec[i].flag_idx] = 1;
     }
@@ -110,7 +142,7 @@ void h_run(void) {
   int k = 0;
   int pollers = 0;
   for (int i = 0; i < nfib; i++) {
-    if (i < 6) k += snprintf(d + k, sizeof d - k, "%c%d/f%d ", "SPY"[spec[i].role], spec[i].k, spec[i].flag_idx);
+    if (i < 6) k += snprintf(d + k, sizeof d - k, "%c%d/f%d ", "SPYLH"[spec[i].role], spec[i].k, spec[i].flag_idx);
     pollers += spec[i].role == ROLE_POLLER;
   }
   if (crowd) {
@@ -118,10 +150,11 @@ void h_run(void) {
     sim_probe("crowd", 1);
     if (nfib > 256) sim_probe("crowd_over_256", 1);
   }
-  sim_describe("threads=%d fibers: %s(S=setter after k yields, P=poller, Y=k yields)", c.threads, d);
+  sim_describe("threads=%d fibers: %s(S=setter after k yields, P=poller, Y=k yields, L=locks the mutex then sets, H=holds the mutex over k yields then polls)", c.threads, d);
   if (pollers >= 1 && nfib >= 3) sim_nontrivial();
   sim_fiber_mode();
   fiber_manager_init(c.threads);
+  fiber_mutex_init(&mx);
   static fiber_t* f[MAXFB];
   for (int i = 0; i < nfib; i++) fptr[i] = NULL;
   for (int i = 0; i < nfib; i++) {
